@@ -356,6 +356,12 @@ class Runner:
             sm.current_state_value = v
         elif how == "cs":
             sm.current_state = getattr(sm, op["state_id"])
+        elif how == "csobj":
+            # a State object that does not belong to this machine (another class's, a free-standing
+            # one): what counts is whether its value is one this machine maps
+            from statemachine import State
+
+            sm.current_state = State("foreign", value=v)
         else:
             raise HarnessError(f"unknown write {how}")
         return None
